@@ -182,7 +182,9 @@ func c18Types() []c18Type {
 			[]string{"ZRANGE", k, "0", "0"}, []string{"ZRANGE", k, "1", "-1", "WITHSCORES"}, []string{"ZRANGE", k, "0", "-1", "REV"}, []string{"ZRANGE", k, "0", "0", "REV", "WITHSCORES"},
 			[]string{"ZRANGE", k, "1", "2", "BYSCORE"}, []string{"ZRANGE", k, "2", "(1", "BYSCORE", "REV"}, []string{"ZRANGE", k, "-inf", "+inf", "BYSCORE", "LIMIT", "1", "1"},
 			[]string{"ZREVRANGE", k, "0", "0"}, []string{"ZREVRANGE", k, "0", "-1", "WITHSCORES"}, []string{"ZREVRANGEBYSCORE", k, "2", "1"}, []string{"ZREVRANGEBYSCORE", k, "+inf", "-inf", "LIMIT", "1", "1"},
-			[]string{"ZRANGEBYSCORE", k, "-inf", "+inf", "LIMIT", "1", "1"})
+			[]string{"ZRANGEBYSCORE", k, "-inf", "+inf", "LIMIT", "1", "1"},
+			// ZADD options
+			[]string{"ZADD", k, "NX", "3", "a"}, []string{"ZADD", k, "XX", "3", "a"}, []string{"ZADD", k, "XX", "CH", "0", "b", "0", "c"}, []string{"ZADD", k, "GT", "2", "a"}, []string{"ZADD", k, "LT", "CH", "2", "a"}, []string{"ZADD", k, "INCR", "1", "a"}, []string{"ZADD", k, "XX", "INCR", "1", "b"})
 	}
 	str = append(str, []string{"MSET", "k1", "x", "k2", ""}, []string{"MSET", "k2", "5", "k2", "x"}, []string{"MGET", "k1", "k2"})
 	mk := func(name string, cmds [][]string, ro [][]string) c18Type {
